@@ -446,6 +446,7 @@ def run(ctx):
     space_hash(ctx)
     combinator_shapes(ctx)
     dunder_algebra(ctx)
+    dunder_sub.zero_operator(ctx)
     dunder_sub.subclass_dunders(ctx)
     dunder_sub.transpose_adjoint(ctx)
     dunder_sub.subclass_products(ctx)
